@@ -317,6 +317,26 @@ func (st *c20State) check(rc *ReqCtx, p *graphql.ResolveParams, path string) {
 	if info.Schema.QueryType() != st.w.Obj["Query"] {
 		bad("Info.Schema is not the schema the request runs against")
 	}
+	// an argument the document does not supply carries the default declared by
+	// the field of the parent's RUNTIME type
+	if obj != nil && len(info.FieldASTs) > 0 && info.FieldASTs[0] != nil {
+		if fd, ok := obj.Fields()[info.FieldName]; ok {
+			supplied := map[string]bool{}
+			for _, a := range info.FieldASTs[0].Arguments {
+				if a != nil && a.Name != nil {
+					supplied[a.Name.Value] = true
+				}
+			}
+			for _, ad := range fd.Args {
+				if ad.DefaultValue == nil || supplied[ad.PrivateName] {
+					continue
+				}
+				if got, ok := p.Args[ad.PrivateName]; !ok || (!reflect.DeepEqual(got, ad.DefaultValue) && got != "POISON") {
+					bad("argument %s is not supplied, %s.%s declares the default %v, the resolver received %v", ad.PrivateName, wantParent, info.FieldName, ad.DefaultValue, got)
+				}
+			}
+		}
+	}
 	// an argument whose value is exactly `$var` carries what was supplied for the
 	// variable (plain Int / String / Boolean values coerce to themselves)
 	if len(info.FieldASTs) > 0 && info.FieldASTs[0] != nil {
